@@ -293,6 +293,8 @@ func Execute(h *History) error {
 				args = []string{t, "--force"}
 			case "dry":
 				args = []string{t, "--dry"}
+			case "dryforce":
+				args = []string{t, "--dry", "--force"}
 			case "dryfailpre":
 				args = []string{t, "--dry"}
 				ctlFile = filepath.Join(ctl, "failpre")
@@ -415,7 +417,7 @@ func (w *world) apply(s Step, c Cfg) {
 var fileOps = []Step{{Op: "edit", F: "a"}, {Op: "touch", F: "a"}, {Op: "add", F: "b"}, {Op: "addold", F: "b"}, {Op: "rm", F: "a"},
 	{Op: "ren", F: "a", G: "b"}, {Op: "edit", F: "x"}, {Op: "touch", F: "x"}, {Op: "rm", F: "x"}, {Op: "rmgen"}, {Op: "flip"}}
 
-var allModes = []string{"run", "other", "fail1", "fail2", "failpre", "depfail1", "forcefail1", "cancelsib", "kill1", "kill2", "prompt", "force", "dry", "status", "list", "listjson", "summary", "drydir", "dryfailpre"}
+var allModes = []string{"run", "other", "fail1", "fail2", "failpre", "depfail1", "forcefail1", "cancelsib", "kill1", "kill2", "prompt", "force", "dry", "status", "list", "listjson", "summary", "drydir", "dryfailpre", "dryforce"}
 
 func inv(m string) Step { return Step{Op: "inv", Mode: m} }
 
